@@ -370,6 +370,14 @@ def base_case(draw, name, max_len=8, max_src=4, steps="full", min_len=0, min_src
                 s_["items"].insert(pos, ["same", j])
                 total += 1
                 longest = max(longest, len(s_["items"]))
+    if name in ("min", "max", "reduce", "accumulate", "zip_longest") and total and draw(st.integers(0, 5)) == 0 \
+            and profile in ("item", "truthy", "num", "unorderable", "lists"):
+        # default / initial / fill value that is the very OBJECT of one of the items (a cached zero, an interned
+        # string, the first row): "nothing there yet" must never be encoded as "is the default"
+        pname = {"min": "default", "max": "default", "reduce": "initial", "accumulate": "initial",
+                 "zip_longest": "fillvalue"}[name]
+        v = params.setdefault("v", {})
+        v[pname] = ["itemref", draw(st.integers(0, max(total - 1, 0)))]
     # consumer plan
     if tool.kind == "agg":
         plan = []
